@@ -21,6 +21,7 @@ import (
 
 var profiles = map[string]func(g *gen){
 	"transfers":   (*gen).runTransfers,
+	"onechain":    (*gen).runOneChain,
 	"supply":      (*gen).runSupply,
 	"authority":   (*gen).runAuthority,
 	"gates":       (*gen).runGates,
